@@ -283,7 +283,7 @@ impl SubCheck for ManyFlows {
                 let udp = if crate::sys::cluster::Spec::udp_supported(proto, transport) {
                     let mut us = spec.clone();
                     us.udp = true;
-                    Some(crate::props::c02::Case { spec: us, apps: 4, targets: 3, sends: sends.into_iter().map(|(app, target, size, by_name)| crate::props::c02::Send { app, target, size: size.min(9000), by_name }).collect() })
+                    Some(crate::props::c02::Case { spec: us, apps: 4, targets: 3, sends: sends.into_iter().map(|(app, target, size, by_name)| crate::props::c02::Send { app, target, size: size.min(9000), by_name }).collect(), reply_delay_ms: vec![0, 12, 0] })
                 } else {
                     None
                 };
